@@ -40,8 +40,14 @@ ASSUMPTIONS = ["keys handed to the constructor are distinct (the library's docum
 def _history(rng, keys, absent, n_ops, lo=-9, lo_hi=None):
     ops = []
     for _ in range(n_ops):
-        t = rng.choice(["getvec", "getvec", "get1", "setscalar", "seteach", "fill", "contains", "items", "hs_contains", "zeros_like", "ones_like", "add_self", "eq_self", "eq_other", "add_perm", "eq_big", "like_set", "hs_contains1", "iadd_num", "iadd_table"])
-        if t == "getvec":
+        t = rng.choice(["getvec", "getvec", "get1", "setscalar", "seteach", "fill", "contains", "items", "hs_contains", "zeros_like", "ones_like", "add_self", "eq_self", "eq_other", "add_perm", "eq_big", "like_set", "hs_contains1", "iadd_num", "iadd_table", "acc_like"])
+        if t == "acc_like":
+            # the accumulator idiom: acc = zeros_like(t); acc += t; then a write into acc (some keys / fill / += again); acc holds what
+            # the dictionary says and t -- the table that was ADDED -- is unchanged
+            sub = rng.sample(keys, rng.randint(1, len(keys)))
+            ops.append({"t": t, "like": rng.choice(["zeros", "ones"]), "how": rng.choice(["set", "fill", "iadd", "set"]),
+                        "ks": [rng.choice(sub) for _ in range(rng.randint(1, 3))], "x": rng.randint(max(lo, 2), 99)})
+        elif t == "getvec":
             ops.append({"t": t, "ks": htgen.queries(rng, keys, absent)})
         elif t == "get1":
             ops.append({"t": t, "k": rng.choice(keys)})
@@ -123,11 +129,22 @@ def cases(rng, tier):
                     o["x"] = rng.choice([0.75, 2.5, 7.25, -1.5] if lo < 0 else [0.75, 2.5, 7.25])
             ops.append({"t": "get1", "k": rng.choice(keys)})
             ops.append({"t": "items"})
+        if scalar:
+            ops = [o for o in ops if o["t"] != "acc_like"] or [{"t": "items"}]
+        qbuf = rng.random() < 0.35
+        if qbuf and len(keys) >= 2:
+            # ONE query buffer, refilled in place between consecutive vector operations of the same length (a batch buffer)
+            n = rng.randint(1, 3)
+            def q():
+                return [rng.choice(keys) for _ in range(n)]
+            tail = [{"t": "getvec", "ks": q()}, {"t": "getvec", "ks": q()}, {"t": "setscalar", "ks": q(), "x": rng.randint(max(lo, 2), 99)}, {"t": "getvec", "ks": q()},
+                    {"t": "contains", "ks": q()[:-1] + [rng.choice(absent) if absent else keys[0]]}, {"t": "getvec", "ks": q()}, {"t": "items"}]
+            ops = ops + tail
         if scalar and np.dtype(dt).itemsize == 1:
             # a table holding one shared value keeps its values in the KEY dtype: with 8-bit keys repeated += would leave it
             ops = [o for o in ops if o["t"] not in ("iadd_num", "iadd_table")] or [{"t": "items"}]
         out.append({"keys": keys, "kdtype": dt, "qdtype": qdt, "mod": mod, "vals": vals,
-                    "vdtype": vdt, "ops": ops})
+                    "vdtype": vdt, "ops": ops, "qbuf": qbuf})
     return out
 
 
@@ -166,22 +183,30 @@ def run_impl(p):
         twin = HashTable(keys, vals, **kw)        # a second table built from the SAME arrays, never written to
         hs = HashSet(keys, **kw)
         trace = []
+        bufs = {}
+        def qarr(ks):
+            # a fresh query array, or (qbuf) the caller's batch buffer of that length, refilled in place
+            if not p.get("qbuf") or not ks:
+                return np.array(ks, dtype=qd)
+            b = bufs.setdefault(len(ks), np.zeros(len(ks), dtype=qd))
+            b[...] = np.array(ks, dtype=qd)
+            return b
         for o in p["ops"]:
             def one():
                 k = o["t"]
                 if k == "getvec":
-                    return [_num(x) for x in t[np.array(o["ks"], dtype=qd)]] if o["ks"] else [_num(x) for x in t[np.array([], dtype=kd)]]
+                    return [_num(x) for x in t[qarr(o["ks"])]] if o["ks"] else [_num(x) for x in t[np.array([], dtype=kd)]]
                 if k == "get1":
                     r = t[int(o["k"])]
                     return [_num(x) for x in np.atleast_1d(r)]
                 if k == "setscalar":
-                    t[np.array(o["ks"], dtype=qd)] = o["x"]; return True
+                    t[qarr(o["ks"])] = o["x"]; return True
                 if k == "seteach":
-                    t[np.array(o["ks"], dtype=qd)] = np.array(o["xs"], dtype=p["vdtype"]); return True
+                    t[qarr(o["ks"])] = np.array(o["xs"], dtype=p["vdtype"]); return True
                 if k == "fill":
                     t.fill(o["x"]); return True
                 if k == "contains":
-                    return [bool(x) for x in t.contains(np.array(o["ks"], dtype=qd))]
+                    return [bool(x) for x in t.contains(qarr(o["ks"]))]
                 if k == "hs_contains":
                     return [bool(x) for x in hs.contains(np.array(o["ks"], dtype=qd))]
                 if k == "items":
@@ -219,6 +244,17 @@ def run_impl(p):
                     if t2 is not t:
                         raise AssertionError("+= returned another object")
                     return htgen.sort_pairs((kk, _num(v)) for kk, v in other.to_dict().items())
+                if k == "acc_like":
+                    acc = (np.zeros_like if o["like"] == "zeros" else np.ones_like)(t)
+                    acc += t
+                    if o["how"] == "set":
+                        acc[np.array(o["ks"], dtype=kd)] = o["x"]
+                    elif o["how"] == "fill":
+                        acc.fill(o["x"])
+                    else:
+                        acc += t
+                    return [htgen.sort_pairs((kk, _num(v)) for kk, v in acc.to_dict().items()),
+                            htgen.sort_pairs((kk, _num(v)) for kk, v in t.to_dict().items())]
                 if k == "like_set":
                     r = (np.zeros_like if o["like"] == "zeros" else np.ones_like)(t)
                     r[np.array(o["ks"], dtype=qd)] = o["x"]
@@ -318,6 +354,16 @@ def oracle(p):
             for q, x in zip(p["keys"], xs):
                 d[q] = d[q] + x
             trace.append(htgen.sort_pairs(zip(p["keys"], xs)))
+        elif k == "acc_like":
+            acc = {q: (0 if o["like"] == "zeros" else 1) + v for q, v in d.items()}
+            if o["how"] == "set":
+                for q in o["ks"]:
+                    acc[q] = o["x"]
+            elif o["how"] == "fill":
+                acc = {q: o["x"] for q in acc}
+            else:
+                acc = {q: v + d[q] for q, v in acc.items()}
+            trace.append([htgen.sort_pairs(acc.items()), htgen.sort_pairs(d.items())])
         elif k == "like_set":
             d2 = {q: (0 if o["like"] == "zeros" else 1) for q in d}
             for q in o["ks"]:
